@@ -19,7 +19,7 @@ AlignedObs(segs) == \A i \in 1..Len(segs) : segs[i].k = "pfx" => segs[i].len = s
 EnvOK(it, o) == /\ o.k = "env" /\ o.flags = it.flags
                 /\ IF HasBytes(it.m)
                      THEN \/ o.z = ZNorm(it.m.z) /\ o.p = it.m.p
-                          \/ it.m.p \in ZeroLen /\ o.z = 0 /\ o.p = ""       \* AsImplemented_EmptyCompressed
+                          \/ it.m.p \in ZeroLen /\ o.z = 0 /\ o.p = "" /\ ZNorm(it.m.z) \in ZsOf(o)     \* AsImplemented_EmptyCompressed
                      ELSE o.z = 0 /\ o.p = ""
 RoundTripOK(items, envs) == Len(envs) = Len(items) /\ \A i \in 1..Len(items) : EnvOK(items[i], envs[i])
 WhyEnc(r) == IF r.obs.err # "" THEN "error"
@@ -37,7 +37,7 @@ WhyOps(r) ==
   ELSE IF RawWins(h) THEN WhyResp(RawDef(FinalRaw(h)), Snap, r.obs)
   ELSE IF ~r.same THEN "normal-response-differs-from-bare-handler"
   ELSE IF r.obs.status # b.status THEN "status"
-  ELSE IF r.obs.body # b.body THEN "body"
+  ELSE IF SelectSeq(r.obs.body, LAMBDA sg : sg.k # "zero") # b.body THEN "body"
   ELSE IF \E n \in Names \ {"Content-Type"} : ValuesOf(r.obs.hdrs, n) # b.hdrs[n] THEN "headers"
   ELSE IF b.hdrs["Content-Type"] # <<>> /\ ValuesOf(r.obs.hdrs, "Content-Type") # b.hdrs["Content-Type"] THEN "headers"
   ELSE "ok"
